@@ -40,6 +40,7 @@ def run(ctx, crate):
     rule_stop_protocol(ctx, crate, g)
     rule_manual_tick_gated(ctx, crate)
     rule_no_guard_escape(ctx, crate)
+    rule_ticker_exit_conditions(ctx, crate)
 
 
 def no_nested_multi(ctx, crate):
@@ -354,3 +355,84 @@ def rule_no_guard_escape(ctx, crate, rule="R-NO-GUARD-ESCAPE"):
             ctx.bad(rule, "returns-guard", f["def"], "%s:%d" % (f["file"], f["line"]), "public fn returns a lock guard %s: users can hold library locks" % gs, cfg)
     ctx.ok(rule, "public-signatures", "<api>", "src/lib.rs", "%d public fn signatures scanned: none returns a guard type" % n, cfg)
     ctx.floor(rule, n, 100, cfg, "public fn signatures")
+
+
+EXIT_SOURCES = (r"std::sync::Weak::<T, A>::upgrade", r"state::ProgressState::is_finished", r"std::sync::Condvar::wait_timeout_while", r"std::sync::Condvar::wait_while",
+                r"std::sync::Condvar::wait_timeout", r"std::sync::Condvar::wait")
+EXIT_THROUGH = (r"std::result::Result::<T, E>::(unwrap|expect|is_ok|is_err|ok|unwrap_or_default)", r"std::option::Option::<T>::(is_some|is_none|unwrap|as_ref)",
+                r"std::sync::WaitTimeoutResult::timed_out", r"std::ops::Deref::deref", r"std::ops::DerefMut::deref_mut", r"std::convert::(From::from|Into::into)")
+
+
+def _exit_sources(b, op, at):
+    """What decides a loop-exit test: walk the value chain back (copies, fields, references, pure std adaptors); stop at the
+    calls that are legitimate reasons to leave the ticker loop; everything else that produces the value is reported."""
+    odd, seen, work = set(), set(), [(op, at)]
+    while work:
+        o, bb = work.pop()
+        if not isinstance(o, dict) or o.get("k") == "const":
+            continue
+        l = operand_local(o) if "place" in o else o.get("l")
+        if l is None or l in seen:
+            continue
+        seen.add(l)
+        if l <= b.arg_count and l >= 1:
+            continue
+        for d in b.defs().get(l, ()):
+            if d.get("via_ref") is not None or d["kind"] == "callmut":
+                continue          # writes through other pointers to the same storage: not the producer of this value
+            if d["kind"] == "call":
+                c = d["call"]
+                if c.matches(*EXIT_SOURCES):
+                    continue
+                if c.matches(*EXIT_THROUGH) and c.args:
+                    work.append((c.args[0], c.bb))
+                else:
+                    odd.add(c.path)
+            elif d["kind"] == "assign":
+                rv = d["rv"]
+                if rv["k"] in ("use", "cast"):
+                    work.append((rv["op"], d["bb"]))
+                elif rv["k"] in ("ref", "copyderef", "discr"):
+                    work.append(({"k": "copy", "place": rv["place"]}, d["bb"]))
+                elif rv["k"] == "un":
+                    work.append((rv["a"], d["bb"]))
+                elif rv["k"] == "bin":
+                    work.append((rv["a"], d["bb"]))
+                    work.append((rv["b"], d["bb"]))
+                elif rv["k"] == "agg":
+                    for x in rv["ops"]:
+                        work.append((x, d["bb"]))
+    return odd
+
+
+def rule_ticker_exit_conditions(ctx, crate, rule="R-TICKER-EXIT-CONDITIONS"):
+    """The steady-tick thread leaves its loop only because it was told to stop, the bar is gone (Weak::upgrade failed) or
+    the bar is finished. While the ticker slot holds a ticker, manual ticks are suppressed (R-MANUAL-TICK-GATED), so a thread
+    that ends for any other reason — e.g. the result of a draw — freezes the bar for good."""
+    cfg = crate.config
+    rn = K.find_one(ctx, crate, rule, r"progress_bar::TickerControl::run")
+    if not rn:
+        return
+    ticks = rn.calls(r"state::BarState::tick")
+    if not ticks:
+        ctx.lost(rule, cfg, "the ticker loop no longer calls BarState::tick")
+        return
+    loop_blocks = set()
+    for t in ticks:
+        loop_blocks |= {t.bb} | {x for x in rn.reach_after(t.bb) if t.bb in rn.reach_after(x)}
+    ALLOWED = (r"std::sync::Weak::<T, A>::upgrade", r"state::ProgressState::is_finished", r"std::sync::Condvar::wait_timeout_while", r"std::sync::Condvar::wait_while",
+               r"std::sync::Mutex::<T>::lock", r"std::result::Result::<T, E>::unwrap", r"std::ops::Deref::deref", r"std::ops::DerefMut::deref_mut",
+               r"std::option::Option::<T>::is_(some|none)", r"std::sync::WaitTimeoutResult::timed_out", r"std::sync::Arc::<T, A>::.*", r"std::clone::Clone::clone")
+    n = 0
+    for sb, t in rn.switches():
+        if sb not in loop_blocks:
+            continue
+        exits = [x for x in rn.succ(sb) if x not in loop_blocks and not K.block_panics(rn, x)]
+        if not exits:
+            continue
+        n += 1
+        odd = sorted(_exit_sources(rn, t["op"], sb))
+        ctx.check(not odd, rule, "loop-exit#%d" % (n - 1), rn.name, "%s:%d" % (rn.file, t.get("line", 0)),
+                  "the loop is left only on stop / bar gone / bar finished",
+                  "the ticker thread can also end because of %s: the ticker slot stays occupied, manual ticks stay suppressed and the bar is never redrawn again" % odd, cfg)
+    ctx.floor(rule, n, 2, cfg, "exit tests of the ticker loop")
